@@ -23,7 +23,7 @@ CLAIMED = {
          "DESIGN.md §4 C03"),
  "C04": ("model_checking",
          "explicit enumeration of sessions (definition-time values x closure definitions) and of calling contexts as transitions of the real evaluator; reference model for arity",
-         "Every closure of a hand-written set (~37 definitions) plus every generated body (every node kind, every parent x child kind in every slot, over parameter / captured / literal leaves) is defined in a session under each definition-time value pair; the same call is then evaluated at top level and in 21 calling contexts (shadowing parameters of every kind, do-locals, nested blocks, callbacks of via/map/into/reduce/where, the function itself as callback, a closure created under another binding, container and conditional positions), with refused redefinitions in between: every context must give the top-level value. All 24 documented parameter-list shapes x argument counts 0..n+3 x plain/spread/mixed/into passing are compared with a 10-line reference model of positional binding.",
+         "Every closure of a hand-written set (~37 definitions) plus every generated body (every node kind, every parent x child kind in every slot, over parameter / captured / literal leaves) is defined in a session under each definition-time value pair; the same call is then evaluated at top level and in 21 calling contexts (shadowing parameters of every kind, do-locals, nested blocks, callbacks of via/map/into/reduce/where, the function itself as callback, a closure created under another binding, container and conditional positions), with refused redefinitions in between: every context must give the top-level value, and for 21 closures the top-level value must equal an expression over a, b and the argument written out by the harness. All 24 documented parameter-list shapes x argument counts 0..n+3 x plain/spread/mixed/into passing are compared with a 10-line reference model of positional binding.",
          "Closures are closed by construction (all free names bound at definition); bodies deeper than parent x child and contexts outside the 21-entry grammar are not explored.",
          "DESIGN.md §4 C04"),
  "C05": ("exploration",
@@ -68,7 +68,7 @@ CLAIMED = {
          "DESIGN.md §4 C12"),
  "C13": ("exploration",
          "bounded-exhaustive enumeration of (list, function) pairs; differential oracle between equivalent program forms in one session",
-         "Every list (all words of length <= 3/4 over a 6-value alphabet plus periodic extensions to 10) x a 32-function pool (all arity classes, closures, self- and mutually recursive named functions, built-ins, non-functions) is evaluated in both forms of each equivalence (via/map, where/filter, into/application, unrolled element+index calls, reduce/left fold, every/some vs folded predicate results) in the same session.",
+         "Every list (all words of length <= 3/4 over a 6-value alphabet plus periodic extensions to 10) x a function pool (all arity classes incl. functions without parameters, closures, self- and mutually recursive named functions, built-ins, non-functions) is evaluated in both forms of each equivalence (via/map, where/filter, into/application, unrolled element+index calls, reduce/left fold, every/some vs folded predicate results) in the same session.",
          "Equivalence is checked by differential evaluation (value equality or both fail); functions outside the pool and lists longer than 10 are not explored.",
          "DESIGN.md §4 C13"),
  "C14": ("exploration",
@@ -93,7 +93,7 @@ CLAIMED = {
          "DESIGN.md §4 C17"),
  "C18": ("exploration",
          "exhaustive enumeration of a recursion grammar, every program executed by the real release binary under the 8 MiB stack limit",
-         "20 recursion kinds (self, mutual, anonymous functions reaching themselves through a parameter, via / map / reduce / filter / where / every / some / count_by / group_by callbacks, do-block body, record-wrapped, into, conditional arms, closure-returning-closure) x 5 nesting constructs x per-call nesting depth 1..32 x {unbounded, bounded to a few hundred calls}: every program runs twice through the release CLI with RLIMIT_STACK = 8 MiB; unbounded recursion must exit 1 with 'maximum call depth', bounded recursion must exit 0 with the value the harness computes. Every program whose lines are statements of their own is also typed into the interactive mode through a pseudo-terminal (stdin is a terminal): limit reported, session alive afterwards, exit status 0.",
+         "28 recursion kinds (self, mutual, anonymous functions reaching themselves through a parameter, via / map / reduce / filter / where / every / some / count_by / group_by callbacks, do-block body, record-wrapped, into, conditional arms, closure-returning-closure; every remaining call site of the evaluator - element-wise via with a list of functions, scalar via, list into, reduce / where / filter / every / some with the function itself as callback - as the only call of the cycle) x 5 nesting constructs x per-call nesting depth 1..32 x {unbounded, bounded to a few hundred calls}: every program runs twice through the release CLI with RLIMIT_STACK = 8 MiB; unbounded recursion must exit 1 with 'maximum call depth', bounded recursion must exit 0 with the value the harness computes. Every program whose lines are statements of their own is also typed into the interactive mode through a pseudo-terminal (stdin is a terminal): limit reported, session alive afterwards, exit status 0.",
          "Depends on the build profile (release, as shipped) and on the 8 MiB limit the property names; nesting deeper than 32 is not explored.",
          "DESIGN.md §4 C18"),
  "C19": ("model_checking",
